@@ -167,6 +167,13 @@ func (g *simGenState) request(ci int) []byte {
 	return encodeCmd(args)
 }
 
+// requestGet: a plain GET of a fresh key of client ci
+func (g *simGenState) requestGet(ci int) []byte {
+	args := [][]byte{[]byte("get"), g.key(ci, false)}
+	g.nreq[ci]++
+	return encodeCmd(args)
+}
+
 func (v *simView) Gen(rng *Rng, i int) string {
 	old := debug.SetGCPercent(-1)
 	defer debug.SetGCPercent(old)
@@ -227,12 +234,25 @@ func (v *simView) Gen(rng *Rng, i int) string {
 				kind = "big " + strconv.Itoa(cfg.limit+1+rng.Intn(50))
 			case x < 23:
 				kind = "nullarr"
+			case x < 27:
+				kind = "notok"
 			}
 			if strings.HasPrefix(kind, "big") && cfg.limit > 4096 {
 				kind = "ok"
 			}
 		}
 		g.emit(fmt.Sprintf("s %d %s", j, kind))
+	}
+	if rng.Chance(1, 120) {
+		// a long pipeline behind one slow request: more replies become deliverable at once than one writev takes
+		ci := 0
+		data := append([]byte{}, g.requestGet(ci)...)
+		npings := 1030 + rng.Intn(300)
+		for k := 0; k < npings; k++ {
+			data = append(data, []byte("*1\r\n$4\r\nping\r\n")...)
+		}
+		g.nreq[ci] += npings
+		g.emit(fmt.Sprintf("c %d %s", ci, hx(data)))
 	}
 	for st := 0; st < steps && run.crashed == ""; st++ {
 		x := rng.Intn(100)
